@@ -302,6 +302,17 @@ func (g *qgen) idx(vi vinfo) string {
 	if g.pick("oddidx", 12) == 0 {
 		return g.oneOf("oddidxv", "1.5", "null", "1e10", "(-1e10)", "0.0", "4294967296", "18446744073709551616")
 	}
+	// fractional keys around every boundary (the engine truncates toward zero:
+	// has(-0.5) is has(0); seed C08-3 compared before truncating)
+	switch g.pick("fracidx", 8) {
+	case 0:
+		return litNum(fmt.Sprintf("%d.5", i))
+	case 1:
+		if i <= 0 {
+			return litNum(fmt.Sprintf("-%d.%s", -i, g.oneOf("frac", "5", "25", "999", "001")))
+		}
+		return litNum(fmt.Sprintf("%d.%s", i-1, g.oneOf("frac", "5", "25", "999", "001")))
+	}
 	return litNum(fmt.Sprint(i))
 }
 
